@@ -597,6 +597,7 @@ void World::client_reaction(Client &cl, const Frame &f) {
 	uint64_t delay = (uint64_t)cl.policy.getd("delay", 0);
 	cl.reply_serial++;
 	std::string tok = "c" + std::to_string(cl.idx) + "-" + std::to_string(cl.reply_serial);
+	{ int ref = model.latest_routed_with_rid(cl.idx, idv->s); if (ref >= 0) model.reply_instance[tok] = ref; }
 	JV msg = JV::obj();
 	msg.set("id", *idv);
 	if (pmode == "error") { JV er = JV::obj(); er.set("code", JV::num(-7)); er.set("message", JV::str("owner says no " + tok)); msg.set("error", er); }
